@@ -234,12 +234,26 @@ EnlargeChi(v) ==
     /\ last' = [op |-> "enlarge_chi", extra |-> [b \in 1..(NL(R) + 1) |-> IF b = 1 \/ b = NL(R) + 1 THEN 0 ELSE 1 + ((b + v) % 2)]]
     /\ Step(last')
 
-\* compress_svd(trunc_par) (terminal): relation -- the overlap with the old state is at least the reported bound
+\* compress_svd(trunc_par) (terminal): relation between the exact dense states and the REPORTED TruncationError:
+\* the sweep projects the state, so the fidelity F = |<psi|psi'>|^2 / (<psi|psi><psi'|psi'>) = prod_k (1 - eps_k) over
+\* the truncated bonds, the recorded norm is multiplied by sqrt(F), and the reported eps = sum_k eps_k and
+\* ov = prod_k (1 - 2 eps_k) obey   1 - F <= eps <= -ln F   and   ov <= F
 Compress(chimax) ==
     /\ Live /\ "compress_svd" \in Ops /\ R.bc = "finite" /\ NL(R) >= 2
     /\ R' = Frame(R) /\ UNCHANGED <<psi, nrm>> /\ mode' = "loose"
     /\ last' = [op |-> "compress_svd", chi_max |-> chimax]
     /\ nops' = nops + 1 /\ phase' = "done" /\ Rec(last' @@ [n2 |-> TNorm2(psi)])
+
+\* convert_form(f) inside a history of transformations: every stored tensor is rescaled (copy semantics: tensors
+\* that other sites / copies still reference must not change); the state, the norm and the mode do not change
+Convert9(f) ==
+    /\ Live /\ "convert_form" \in Ops /\ f \in Forms /\ (Inf(R) => R.known)
+    /\ (R.known => \E i \in 1..NL(R) : R.form[i] # f)
+    /\ R' = IF R.known THEN [R EXCEPT !.form = [i \in 1..NL(R) |-> f], !.B = [i \in 1..NL(R) |-> GetB(R, i - 1, f)]]
+             ELSE Frame(R)
+    /\ UNCHANGED <<psi, nrm, mode>>
+    /\ last' = [op |-> "convert_form", form |-> [i \in 1..NL(R) |-> f]]
+    /\ Step(last')
 
 \* canonical_form(renormalize) as an intermediate step
 Canon(rn) ==
@@ -335,6 +349,7 @@ DoGroup == Live /\ \E n \in 2..3 : Group(n)
 DoGroupSplit == Live /\ \E n \in 2..3 : GroupSplit(n)
 DoEnlargeChi == Live /\ \E v \in 0..1 : EnlargeChi(v)
 DoCompress == Live /\ \E c \in 1..3 : Compress(c)
+DoConvert9 == Live /\ \E f \in Forms : Convert9(f)
 DoCanon == Live /\ \E rn \in BOOLEAN : Canon(rn)
 DoInversion == Live /\ Inversion
 DoRoll == Live /\ \E sh \in {-2, -1, 1, 2, 3} : Roll(sh)
@@ -342,7 +357,7 @@ DoEnlarge == Live /\ \E f \in 2..3 : Enlarge(f)
 DoExtract == Live /\ \E first \in (0 - 2)..3, lst \in (0 - 1)..5 : (nops >= 1 => first \in {0 - 1, 0}) /\ Extract(first, lst)
 
 Next9 == DoStart \/ DoLocalOp \/ DoLocalOp2 \/ DoProductOp \/ DoLocalTerm \/ DoSwap \/ DoPermute \/ DoAdd \/ DoGroup \/ DoGroupSplit
-         \/ DoEnlargeChi \/ DoCompress \/ DoCanon \/ DoInversion \/ DoRoll \/ DoEnlarge \/ DoExtract
+         \/ DoEnlargeChi \/ DoCompress \/ DoConvert9 \/ DoCanon \/ DoInversion \/ DoRoll \/ DoEnlarge \/ DoExtract
 Spec9 == Init /\ [][Next9]_vars
 
 -----------------------------------------------------------------------------
